@@ -33,6 +33,7 @@ func semUnit(c *Ctx, prop string, p *Prog, txts []string, withVars bool, alsoRep
 			c.Eval(1)
 			want, r := refScan(p, t, Variants{})
 			if r.blown {
+				c.Count("reference_too_expensive_skipped", 1)
 				continue
 			}
 			if len(want) > 0 {
@@ -91,7 +92,11 @@ func firstLine(s string) string {
 func progDesc(p *Prog) string { return p.Source("find all") }
 
 func runGram(c *Ctx, prop, name string, g *Gram, maxN int, txts []string, withVars, needCap bool, replaceUpTo int) {
-	for n := 1; n <= maxN; n++ {
+	runGramFrom(c, prop, name, g, 1, maxN, txts, withVars, needCap, replaceUpTo)
+}
+
+func runGramFrom(c *Ctx, prop, name string, g *Gram, minN, maxN int, txts []string, withVars, needCap bool, replaceUpTo int) {
+	for n := minN; n <= maxN; n++ {
 		if !c.Level(fmt.Sprintf("%s:n=%d", name, n)) {
 			return
 		}
@@ -129,7 +134,11 @@ func runC01(c *Ctx) {
 	installStepHook()
 	defer flushInstKinds(c)
 	// D1 control
-	runGram(c, "C01", "D1", gramD1(), c.Pick(4, 5), texts("ab", 5), false, false, 3)
+	runGram(c, "C01", "D1", gramD1(), 4, texts("ab", 5), false, false, 3)
+	if !c.Quick() {
+		// 5 nodes: texts up to length 4 (nested unbounded loops backtrack exponentially in the text length)
+		runGramFrom(c, "C01", "D1", gramD1(), 5, 5, texts("ab", 4), false, false, 0)
+	}
 	// D2 primitives: singles, under one loop, pairs
 	txt2 := texts(alphaD2, 3)
 	at := atomsD2()
@@ -201,7 +210,7 @@ func runC01(c *Ctx) {
 	}
 	// D1r deeper (thorough)
 	if !c.Quick() {
-		runGram(c, "C01", "D1r", gramD1r(), 6, texts("ab", 5), false, false, 0)
+		runGram(c, "C01", "D1r", gramD1r(), 6, texts("ab", 4), false, false, 0)
 	}
 }
 
